@@ -88,6 +88,10 @@ class Check:
     def fact(self, name, ok, funcs=(), mode="structure", detail="", key=None, seconds=0.0):
         """an obligation decided by inspecting the executed SSA / concrete state (not a solver query);
         a failure is a concrete fact about the code and is reported as a violation"""
+        if not ok and ("('error'" in detail or "ExecError" in detail or "Unsupported" in detail):
+            # the executed paths include one the engine could not follow: that is a limitation of the engine, not a fact
+            # about the code - undecided (the safety-net battery decides), never a violation
+            return self.add(Ob(name, "error:engine could not follow a path", seconds, funcs, mode, detail))
         ob = self.add(Ob(name, "unsat" if ok else "violated", seconds, funcs, mode, detail))
         if not ok:
             self.violation(key or name, name + (": " + detail if detail else ""), dict(kind="structural", name=name, detail=detail, funcs=list(funcs)))
